@@ -410,7 +410,124 @@ def _first_bad(C, got, want):
     return str(bad)
 
 
+SPECIAL_FORMULAS = ["y ~ s", "y ~ x + x:s", "y ~ 0 + xz0:s + x", "y ~ h + h:s", "y ~ x + (1 | g)", "y ~ (0 + s | g)", "y ~ x + (x:s | g)",
+                    "y ~ C(s, levels=lv_s)", "y ~ x + C(kbig)", "y ~ (1 | kbig)", "y ~ T(s, ref_s):x + (C(s, levels=lv_s) | g)"]
+SPECIAL_KINDS = ["missing", "zero-product", "unseen"]
+
+
+def judge_special(seed, formula, kind, m):
+    """Placements the random planting does not reach:
+    missing       the new frame has a MISSING value in the factor (not a level: never counted as one)
+    zero-product  the other factors of the term are zero on every new row (numeric 0 / reference level only):
+                  the unseen level is still an unseen level
+    unseen        explicit levels=, and integer levels beyond 2**53 next to the unseen one"""
+    import warnings
+    import formulae
+
+    rng = np.random.default_rng(seed)
+    n = 24
+    s_lv, g_lv = ["a", "b", "c"], ["g1", "g2", "g3"]
+    kb = [10 ** 17 + 1, 10 ** 17 + 2, 10 ** 17 + 3]
+    df = pd.DataFrame({"y": rng.normal(size=n), "x": rng.normal(size=n), "xz0": rng.normal(size=n),
+                       "s": pd.Series([s_lv[j % 3] for j in rng.permutation(n)], dtype="str"),
+                       "h": pd.Series([["u", "v"][j % 2] for j in rng.permutation(n)], dtype="str"),
+                       "g": pd.Series([g_lv[j % 3] for j in rng.permutation(n)], dtype="str"),
+                       "kbig": np.array([kb[j % 3] for j in rng.permutation(n)], dtype="int64")})
+    ns = {"lv_s": ["b", "c", "a"], "ref_s": "b"}
+    case = {"special": True, "seed": seed, "formula": formula, "kind": kind}
+    m.current_case = case
+    formulae.config["EVAL_UNSEEN_CATEGORIES"] = "error"
+    try:
+        dm = formulae.design_matrices(formula, df, extra_namespace=ns)
+    except Exception as e:
+        m.note("design-raised:" + type(e).__name__)
+        return
+    col = "kbig" if "kbig" in formula else ("g" if kind != "zero-product" and "| g" in formula and "s" not in formula.replace("ys", "") else "s")
+    if col == "s" and " s" not in formula and ":s" not in formula and "(s" not in formula and "s," not in formula:
+        col = "g"
+    new = df.iloc[rng.integers(0, n, size=8)].reset_index(drop=True)
+    S = np.array([1, 4, 5])
+    bad = new.copy()
+    if kind == "missing":
+        if col == "kbig":
+            return
+        bad[col] = pd.Series([np.nan if r in S else v for r, v in enumerate(bad[col].tolist())], dtype="str")
+    else:
+        unseen = 10 ** 17 + 9 if col == "kbig" else "ZZ new"
+        vals = [unseen if r in S else v for r, v in enumerate(bad[col].tolist())]
+        bad[col] = np.array(vals, dtype="int64") if col == "kbig" else pd.Series(vals, dtype="str")
+    if kind == "zero-product":
+        # every other factor of the terms involving `col` is zero on every new row
+        bad["x"], bad["xz0"], bad["h"] = 0.0, 0.0, pd.Series(["u"] * len(bad), dtype="str")
+        new = new.assign(x=0.0, xz0=0.0, h=pd.Series(["u"] * len(new), dtype="str"))
+    onS = np.zeros(len(bad), bool)
+    onS[S] = True
+    for mode in ("error", "warning", "silent"):
+        formulae.config["EVAL_UNSEEN_CATEGORIES"] = mode
+        for part_name in ("common", "group"):
+            part = getattr(dm, part_name)
+            if part is None:
+                continue
+            involved = [t for t in part.terms if col in t.replace("lv_s", "").replace("ref_s", "")]
+            if not involved:
+                continue
+            contract = "common-unseen-policy" if part_name == "common" else "group-new-block"
+            m.ev(contract)
+            try:
+                with warnings.catch_warnings(record=True) as w:
+                    warnings.simplefilter("always")
+                    res = part.evaluate_new_data(bad)
+                exc = None
+            except Exception as e:
+                res, exc = None, e
+            if mode == "error" and kind != "missing":
+                if exc is None:
+                    m.violation(contract, f"{formula} [{kind}]: mode error, unseen level of {col} on rows {S.tolist()} accepted by the {part_name} part",
+                                case={**case, "mode": mode}, key=f"special:{part_name}:error-not-raised")
+                continue
+            if exc is not None:
+                if mode != "error":
+                    m.violation(contract, f"{formula} [{kind}]: mode {mode} raised {type(exc).__name__}: {exc}", case={**case, "mode": mode},
+                                key=f"special:{part_name}:raises")
+                continue
+            X = np.asarray(res.design_matrix, dtype=float)
+            with core.shadow():
+                formulae.config["EVAL_UNSEEN_CATEGORIES"] = "error"
+                ref = np.asarray(part.evaluate_new_data(new).design_matrix, dtype=float)
+                formulae.config["EVAL_UNSEEN_CATEGORIES"] = mode
+            for t in involved:
+                sl = part.slices[t]
+                blk = X[:, sl] if part_name == "common" else X[:, sl.start: sl.start + (ref.shape[1] and (sl.stop - sl.start))]
+                width = min(blk.shape[1], ref[:, sl].shape[1])
+                # rows without the planted value are what they are in the unplanted frame
+                if not np.allclose(blk[~onS, :width], ref[~onS][:, sl][:, :width], equal_nan=True):
+                    m.violation(contract, f"{formula} [{kind}], mode {mode}: term {t} changed on rows that do not hold the planted value",
+                                case={**case, "mode": mode}, key=f"special:{part_name}:other-rows")
+                # rows with the planted value are in none of the existing levels / groups (0 or missing)
+                cells = blk[onS, :width]
+                if np.any(np.nan_to_num(cells, nan=0.0) != 0):
+                    m.violation(contract, f"{formula} [{kind}], mode {mode}: on the rows where {col} is {'missing' if kind == 'missing' else 'unseen'} "
+                                f"term {t} is non-zero in the columns of existing levels / groups", case={**case, "mode": mode},
+                                key=f"special:{part_name}:counted-as-existing")
+            if mode == "warning" and kind != "missing":
+                msgs = [str(x.message) for x in w if issubclass(x.category, UserWarning)]
+                if not msgs:
+                    m.violation(contract, f"{formula} [{kind}]: mode warning, unseen level of {col} in the {part_name} part: no UserWarning",
+                                case={**case, "mode": mode}, key=f"special:{part_name}:no-warning")
+    formulae.config["EVAL_UNSEEN_CATEGORIES"] = "error"
+
+
 def run_shard(i, n, tier, seed, m):
+    k = 0
+    for formula in SPECIAL_FORMULAS:
+        for kind in SPECIAL_KINDS:
+            for rep in range(1 if tier == "quick" else 6):
+                k += 1
+                if k % n != i:
+                    continue
+                sd = seed * 613 + k * 7 + rep
+                m.case({"special": True, "seed": sd, "formula": formula, "kind": kind}, canon=[formula, kind, sd], nontrivial=True)
+                core.guarded(judge_special)(sd, formula, kind, m)
     if i == 0:
         m.case({"config": "exhaustive driver"}, canon="config-driver")
         core.guarded(config_driver)(m)
@@ -426,6 +543,8 @@ def run_shard(i, n, tier, seed, m):
 
 def replay(rec, m):
     register_hooks(m)
+    if rec["case"].get("special"):
+        return judge_special(rec["case"]["seed"], rec["case"]["formula"], rec["case"]["kind"], m)
     if "config" in rec["case"] or "config_state" in rec["case"]:
         config_driver(m)
     else:
